@@ -30,7 +30,7 @@ func genC02(t *rapid.T) C02Case {
 	cfg.BadIntentPct = 2
 	cfg.SharedPct = 30
 	cfg.ForkPct = 25
-	cfg.Kinds = []string{"pay", "sf", "form", "form", "formprove", "fcop", "fcop", "fcop", "fcop", "attest", "foundation", "arb"}
+	cfg.Kinds = []string{"pay", "sf", "sfchain", "form", "form", "formprove", "fcop", "fcop", "fcop", "fcop", "attest", "foundation", "arb"}
 	tc := kit.GenTree(t, cfg)
 	c := C02Case{Tree: tc, Steps: kit.GenSchedule(t, len(tc.Blocks), 30), Backend: kit.Uniform(t, 10, "backend")}
 	if kit.Chance(t, 35, "cp") {
@@ -86,7 +86,7 @@ func reorgClasses(cs *kit.CaseStats, oldTip, newTip *kit.TNode) (reverted int) {
 		for _, k := range n.Kinds {
 			cs.Class("reverted:" + k)
 			switch k {
-			case "v1form", "v1rev", "v1rev-eph", "v1proof", "v2form", "v2rev", "v2renew", "v2proof", "v2expire", "v1sf", "v2sf":
+			case "v1form", "v1rev", "v1rev-eph", "v1proof", "v2form", "v2rev", "v2renew", "v2proof", "v2expire", "v1sf", "v1sf-eph", "v2sf":
 				cs.NonTrivial()
 			}
 		}
